@@ -11,7 +11,7 @@
 (* sampled with tlc -simulate.                                                              *)
 EXTENDS Cache, TLC
 
-CONSTANTS StartFiles,     \* subset of {"none", "full", "cut0", "cut1", "zero"}
+CONSTANTS StartFiles,     \* subset of {"none", "full", "late", "cut0", "cut1", "zero"}
           StartProtos     \* protocols the workers may ask through
 
 VARIABLES start,          \* [f, ps]: the chosen starting file and the protocol of each worker (constant)
@@ -23,7 +23,7 @@ D0 == [n \in Names |-> "v1"]
 Chunks(k) == [i \in 1..k |-> [d |-> D0, k |-> i, leak |-> FALSE]]
 FileOf(f) ==
     CASE f = "none" -> NoFile
-      [] f = "full" -> [exists |-> TRUE, mtime |-> 0, zero |-> FALSE, chunks |-> Chunks(Full)]
+      [] f \in {"full", "late"} -> [exists |-> TRUE, mtime |-> 0, zero |-> FALSE, chunks |-> Chunks(Full)]
       [] f = "cut0" -> [exists |-> TRUE, mtime |-> 0, zero |-> FALSE, chunks |-> Chunks(0)]
       [] f = "cut1" -> [exists |-> TRUE, mtime |-> 0, zero |-> FALSE, chunks |-> Chunks(1)]
       [] f = "zero" -> [exists |-> TRUE, mtime |-> 0, zero |-> TRUE, chunks |-> Chunks(Full)]
@@ -32,7 +32,9 @@ RInit ==
     /\ start \in [f : StartFiles, ps : [Workers -> StartProtos]]
     /\ dir = D0 /\ hist = <<[t |-> 0, d |-> D0]>> /\ clock = 0 /\ T = 4
     /\ file = FileOf(start.f)
-    /\ pc = [w \in Workers |-> "probe"]
+    \* "late": a complete cache file is there, but worker 1 had looked before it was written (it probed, saw nothing
+    \* and is about to regenerate): a writer that truncates a file which other workers have every reason to read
+    /\ pc = [w \in Workers |-> IF start.f = "late" /\ w = 1 THEN "gen" ELSE "probe"]
     /\ mem = [w \in Workers |-> [d |-> D0, leak |-> FALSE]]
     /\ req = start.ps /\ started = [w \in Workers |-> 0]
     /\ out = [w \in Workers |-> NoOut] /\ wpos = [w \in Workers |-> 0]
